@@ -113,6 +113,7 @@ impl Prop for C03 {
         let cases = sh.share(sh.tier.pick(12_000, 400_000));
         let mut cfg = GenCfg::core(sh.tier.pick(10, 24), sh.tier.pick(2, 4));
         cfg.procs = true;
+        cfg.errors = false;
         cfg.data = false;
         cfg.deftypes = false;
         sh.search(1, cases, 60, sh.tier.pick(400, 800), |sh, tape| one_case(sh, tape, &cfg));
